@@ -61,6 +61,10 @@ type Op struct {
 	// load: the member names (keys) of a JSON object given to FromJSON, in document
 	// order; the value of each key is fixed by LoadPairs.
 	L []int `json:"l,omitempty"`
+	// load: how the document is spoiled — 0 not at all; 1 a further member whose value
+	// has the wrong type (well-formed JSON, the load must fail and change nothing);
+	// 2 the document is `null` (succeeds, denotes no pairs); 3 the closing brace is cut off.
+	B int `json:"b,omitempty"`
 }
 
 // LoadPairs turns the keys of a load op into the (key, value) members of the
@@ -146,6 +150,61 @@ func (b *Box) Load(pairs [][2]int) error {
 		return via.Auto(b.TreeBidi, doc)
 	}
 	panic("kvh: Load on unknown kind")
+}
+
+// LoadRaw hands doc to the container (entry point chosen by the document's bytes).
+func (b *Box) LoadRaw(doc []byte) error {
+	switch {
+	case b.RBT != nil:
+		return via.Auto(b.RBT, doc)
+	case b.AVL != nil:
+		return via.Auto(b.AVL, doc)
+	case b.BT != nil:
+		return via.Auto(b.BT, doc)
+	case b.TreeMap != nil:
+		return via.Auto(b.TreeMap, doc)
+	case b.HashMap != nil:
+		return via.Auto(b.HashMap, doc)
+	case b.Linked != nil:
+		return via.Auto(b.Linked, doc)
+	case b.HashBidi != nil:
+		return via.Auto(b.HashBidi, doc)
+	case b.TreeBidi != nil:
+		return via.Auto(b.TreeBidi, doc)
+	}
+	panic("kvh: LoadRaw on unknown kind")
+}
+
+// DoLoad performs a load op.  replace reports whether the model's content becomes
+// pairs (a load that succeeds) or must stay as it is (a load that fails: it is
+// neither a Put nor a Remove nor a Clear).  err is non-nil when the container's
+// verdict on the document differs from encoding/json's.
+func (b *Box) DoLoad(cmpID string, op Op) (pairs [][2]int, replace bool, err error) {
+	pairs = LoadPairs(cmpID, op.L)
+	doc := LoadDoc(pairs, false)
+	wantErr := false
+	switch op.B {
+	case 1:
+		extra := `"2000000":"oops"}`
+		if len(pairs) > 0 {
+			extra = "," + extra
+		}
+		doc = append(doc[:len(doc)-1:len(doc)-1], extra...)
+		wantErr = true
+	case 2:
+		doc, pairs = []byte("null"), nil
+	case 3:
+		doc = doc[:len(doc)-1]
+		wantErr = true
+	}
+	got := b.LoadRaw(doc)
+	switch {
+	case wantErr && got == nil:
+		return pairs, false, fmt.Errorf("%s(%s) returned no error, encoding/json rejects the document", via.AutoName(doc), doc)
+	case !wantErr && got != nil:
+		return pairs, false, fmt.Errorf("%s(%s) failed: %v", via.AutoName(doc), doc, got)
+	}
+	return pairs, !wantErr, nil
 }
 
 type Case struct {
@@ -394,6 +453,7 @@ type GenParams struct {
 	SmallVals bool     // values from the key range (bidi collisions) instead of a counter
 	Stride    int      // keys are multiples of Stride (>=1); probes fall between neighbours
 	Probes    bool     // also emit "probe" ops (C02) with arbitrary keys
+	BadLoads  bool     // load ops may also be spoiled (Op.B): documents that must be rejected, and null
 	Loads     bool     // also emit "load" ops: FromJSON of a generated object replaces the content
 }
 
@@ -495,8 +555,24 @@ func Gen(p GenParams) func(t *rapid.T) Case {
 						ks[j] = live[(j*7+len(ks))%len(live)]
 					}
 				}
-				c.Ops = append(c.Ops, Op{O: "load", L: ks})
-				live = append(live[:0], ks...)
+				op := Op{O: "load", L: ks}
+				if p.BadLoads {
+					switch rapid.IntRange(0, 11).Draw(t, "spoil") {
+					case 5:
+						op.B = 1
+					case 6:
+						op.B = 2
+					case 7:
+						op.B = 3
+					}
+				}
+				c.Ops = append(c.Ops, op)
+				switch op.B {
+				case 0:
+					live = append(live[:0], ks...)
+				case 2:
+					live = live[:0]
+				}
 			case 7:
 				// probe key: anywhere in (and a little outside) the key range, not tied to the stride
 				c.Ops = append(c.Ops, Op{O: "probe", K: rapid.IntRange(-2, hi*p.Stride+2).Draw(t, "pk")})
